@@ -16,3 +16,5 @@ INVARIANT NormalisedAtMostOne
 INVARIANT NormalisedAttainsOne
 INVARIANT NormalisedOrderKept
 INVARIANT Emit
+PROPERTY CalculateKeepsArgument
+PROPERTY RecalculateIsStuttering
